@@ -51,7 +51,9 @@ func NewValidatedKIDBackendWrapper(backend Storage, kidPattern *regexp.Regexp) S
 }
 
 func (w wrapper) validateKID(kid string) error {
-	if !w.kidPattern.MatchString(kid) {
+	// "." and ".." consist of allowed characters only, but backends that derive a storage path from the key name
+	// (e.g. Vault: <prefix>/nuts-private-keys/<name>) would resolve them to a location outside the key store.
+	if kid == "." || kid == ".." || !w.kidPattern.MatchString(kid) {
 		return fmt.Errorf("invalid key ID: %s", kid)
 	}
 	return nil
